@@ -334,7 +334,7 @@ def run_cases(c, cases):
     def one(k):
         if not chunks[k]:
             return dict(answers=[])
-        return run_impl("drive_c13.py", dict(workdir=str(wd / f"w{k}"), cases=chunks[k]), timeout=1500)
+        return run_impl("drive_c13.py", dict(workdir=str(wd / f"w{k}"), cases=chunks[k]), timeout=3000)
 
     with ThreadPoolExecutor(max_workers=nproc) as ex:
         res = list(ex.map(one, range(nproc)))
@@ -357,7 +357,7 @@ def run(c: Check):
               "configuration or a cycle, and at least one pre-task; distinct by heap")
     c.build()
     c.props()
-    n = 1500 if c.quick else 20000
+    n = 1500 if c.quick else 12000
     cases = []
     if c.replay:
         rp = json.load(open(c.replay))["replay"]
